@@ -142,6 +142,17 @@ prop(
     explanation="",
 )
 
+prop(
+    "C07",
+    contract_modules=["contracts.c07"],
+    bcc="c07",
+    level="other",
+    claimed=False,
+    trusted=["vectorize_sse.h:fvec4", "libm.axioms", "C.int"],
+    assumptions=[],
+    explanation="",
+)
+
 # ---- stubs (filled in as the contracts are written) -------------------------------------------
 _BOUNDED_TEXT = ("Bounded contract check only at this commit: the property's contracts are evaluated at run time on the real code over the "
                  "enumerated input space stated in evidence (coverage.bounded); labelled bounded, nothing is counted as proved. "
